@@ -13,7 +13,8 @@ FS_ARRAY = int(os.environ.get("VERIF_FS_ARRAY", "4096"))
 class Harness:
     def __init__(self, name, group, props, tier="quick", timeout=600, memsafe=False, desc="",
                  encodes=(), bounds="", stubs=(), expect="hold", unwind=None, extra=(),
-                 native_replay=True, assumptions=(), fs_array=None):
+                 native_replay=True, assumptions=(), fs_array=None, mem_gb=None):
+        self.mem_gb = mem_gb        # address-space limit for this harness (default VERIF_MEM_KB = 14 GB)
         self.fs_array = fs_array     # --max-field-sensitivity-array-size (None = CBMC default 64)
         self.name = name            # harness fn name (unique suffix)
         self.group = group
@@ -161,8 +162,13 @@ def run_harness(root, h, workdir, extra_flags=()):
     t0 = time.time()
     with open(logp, "w") as lf:
         try:
-            p = subprocess.Popen(cmd, cwd=root, env=scratch.ENV, stdout=lf, stderr=subprocess.STDOUT,
-                                 preexec_fn=_limits_big if "--concrete-playback=print" in cmd else _limits)
+            def _lim(h=h, big=("--concrete-playback=print" in cmd)):
+                kb = (h.mem_gb * 1024 * 1024) if getattr(h, "mem_gb", None) else MEM_LIMIT_KB
+                if big:
+                    kb *= 3
+                resource.setrlimit(resource.RLIMIT_AS, (kb * 1024, kb * 1024))
+                os.setsid()
+            p = subprocess.Popen(cmd, cwd=root, env=scratch.ENV, stdout=lf, stderr=subprocess.STDOUT, preexec_fn=_lim)
             try:
                 p.wait(timeout=h.timeout)
             except subprocess.TimeoutExpired:
